@@ -304,7 +304,15 @@ fn gen_wellformed(rng: &mut Rng, seq: &mut u8) -> String {
                 4 => format!("{:0>40x}", SEQ_CELL),
                 _ => format!("{:08x}", SEQ_CELL),
             };
-            format!("u8:{}:{:x}", a, *seq)
+            // the value in any spelling of the same number
+            let v = match rng.below(8) {
+                0 => format!("{:02x}", *seq),
+                1 => format!("{:03x}", *seq),
+                2 => format!("{:08x}", *seq),
+                3 => format!("{:X}", *seq),
+                _ => format!("{:x}", *seq),
+            };
+            format!("u8:{}:{}", a, v)
         }
         4 | 5 => {
             let a = match rng.below(5) {
@@ -317,7 +325,15 @@ fn gen_wellformed(rng: &mut Rng, seq: &mut u8) -> String {
             };
             format!("u8:{:x}:{:02x}", a, rng.u8())
         }
-        6 | 7 => format!("ioport:{:x}:{:x}", rng.range(1, 11), rng.u8()),
+        6 | 7 => {
+            let (p, v) = (rng.range(1, 11), rng.u8());
+            match rng.below(6) {
+                0 => format!("ioport:{:X}:{:X}", p, v),
+                1 => format!("ioport:{:02x}:{:02x}", p, v),
+                2 => format!("ioport:{:x}:{:04x}", p, v),
+                _ => format!("ioport:{:x}:{:x}", p, v),
+            }
+        }
         8 => "cmd:pause".to_string(),
         _ => "cmd:start".to_string(),
     }
@@ -328,6 +344,8 @@ fn gen_malformed(rng: &mut Rng) -> String {
         "cmd", "cmd:", "cmd:pause:x", "cmd:start:", "cmd:stop:1", "cmd:stop:", ":cmd:stop", "cmd::stop", "cmd:halt", "cmd:STOP", "CMD:stop", " cmd:stop", "cmd:stop ", "cmd :stop",
         "u8", "u8:", "u8:fffe40", "u8:fffe40:", "u8:fffe40:1:2", "u8::1", "u8:zz:01", "u8:fffe40:xyz", "u8:fffe40:100", "u8:1ffffffff:01", "u8:fffe40:-1", "u8:0xfffe40:1", "u8:fffe40 :1",
         "u8:100:1", "u8:600000:1", "u8:ffffea:1", "u8:ffbf1f:1", "u8:ffffffff:ff", "U8:fffe40:1",
+        // addresses that would land on used cells if the upper bits were dropped
+        "u8:01fffe40:1", "u8:1fffe40:1", "u8:ff00fffe40:1", "u8:80fffe41:1", "u8:01fffe20:7f", "u8:10000c0:1", "u8:fffe40:1ff", "u8:fffe40:101",
         "ioport", "ioport:1", "ioport:1:2:3", "ioport:g:1", "ioport:1:g", "ioport:100:1", "ioport:1:100", "ioport:0:ff", "ioport:c:ff", "ioport:ff:ff", "ioport::", "IOPORT:1:ff",
         "", ":", "::", "foo", "foo:1:2", "stop", "pause", "start", "sync:2000000", "stdout:cmd:stop", "ready", "\u{3042}:1:2", "u8:\u{ff11}:1",
     ];
